@@ -517,12 +517,15 @@ func (w *World) decode64(dst *roaring64.Bitmap, data []byte, e int, seed uint64,
 		rd := &simio.ChunkedReader{Data: append(append([]byte(nil), data...), tail...), Sizes: chunkSizes(seed), ErrAt: -1, EOFWith: seed&1 == 1}
 		p, err = dst.ReadFrom(rd)
 		pulled = rd.Pulled
+		scribble(rd.Data)
 	case 1:
 		var reg *simio.Region
 		ri, reg = w.addRegion(data, "portable64", prop, 1)
 		p, err = dst.FromUnsafeBytes(reg.Bytes())
 	case 2:
-		err = dst.UnmarshalBinary(data)
+		tmp := append([]byte(nil), data...)
+		err = dst.UnmarshalBinary(tmp)
+		scribble(tmp)
 		p = -1
 	default:
 		p, err = dst.FromBase64(base64.StdEncoding.EncodeToString(data))
